@@ -13,7 +13,7 @@
 (*  - EmitState (an INVARIANT that is always TRUE) prints one JSON line    *)
 (*    per distinct state: its history and its candidate calls.             *)
 (***************************************************************************)
-EXTENDS PropsQ, Json, Randomization
+EXTENDS PropsF, Json, Randomization
 
 CONSTANTS ScopeName, MaxDepth, Emit
 VARIABLES ir, hist
@@ -113,6 +113,43 @@ CloneEditScope ==
        names |-> {"z"}, vals |-> {}, pos |-> {NoPos}, createN |-> {0},
        queries |-> {"xf2"}, walk |-> FALSE]
 
+(* format scopes: a fully named design space (named top instance, three libraries, bus port, bus nets)   *)
+FmtInit == << Cnew("N", "n"), Ccreate("NL", 1, "prim", 0), Ccreate("NL", 1, "ip", 0), Ccreate("NL", 1, "work", 0),
+              Ccreate("LD", 1, "leaf", 0), Ccreate("LD", 2, "leaf", 0), Ccreate("LD", 2, "mid", 0), Ccreate("LD", 3, "top", 0),
+              Ccreate("DP", 1, "i", 1), Ccreate("DP", 1, "o", 1), Ccreate("DP", 2, "i", 1),
+              Ccreate("DP", 3, "a", 2), Ccreate("DP", 3, "b", 1), Ccreate("DC", 3, "n", 2), Ccreate("DC", 3, "s", 1),
+              Ccreate("DP", 4, "t", 1), Ccreate("DC", 4, "m", 3),
+              [op |-> "set_dir", x |-> 1, ival |-> 2], [op |-> "set_dir", x |-> 2, ival |-> 3],
+              [op |-> "set_dir", x |-> 4, ival |-> 2], [op |-> "set_dir", x |-> 5, ival |-> 1],
+              Csettopdef(1, 4), [op |-> "set_name", kind |-> "I", x |-> 1, val |-> "top"] >>
+(* the same cells in ONE library, so that the declaration order inside a library matters *)
+FmtInit1 == << Cnew("N", "n"), Ccreate("NL", 1, "work", 0),
+               Ccreate("LD", 1, "leaf", 0), Ccreate("LD", 1, "leafb", 0), Ccreate("LD", 1, "mid", 0), Ccreate("LD", 1, "top", 0),
+               Ccreate("DP", 1, "i", 1), Ccreate("DP", 1, "o", 1), Ccreate("DP", 2, "i", 1),
+               Ccreate("DP", 3, "a", 2), Ccreate("DP", 3, "b", 1), Ccreate("DC", 3, "n", 2), Ccreate("DC", 3, "s", 1),
+               Ccreate("DP", 4, "t", 1), Ccreate("DC", 4, "m", 3),
+               [op |-> "set_dir", x |-> 1, ival |-> 2], [op |-> "set_dir", x |-> 2, ival |-> 3],
+               Csettopdef(1, 4), [op |-> "set_name", kind |-> "I", x |-> 1, val |-> "top"] >>
+(* as FmtInit1 but the cells are CREATED in the order mid, leaf, top (object identity order matters to     *)
+(* code that iterates Python sets of definitions), hierarchy pre-built                                    *)
+FmtInit3 == << Cnew("N", "n"), Ccreate("NL", 1, "work", 0),
+               Ccreate("LD", 1, "mid", 0), Ccreate("LD", 1, "leaf", 0), Ccreate("LD", 1, "leafb", 0), Ccreate("LD", 1, "top", 0),
+               Ccreate("DP", 2, "i", 1), Ccreate("DP", 2, "o", 1), Ccreate("DP", 3, "i", 1),
+               Ccreate("DP", 1, "a", 2), Ccreate("DP", 1, "b", 1), Ccreate("DC", 1, "n", 2), Ccreate("DC", 1, "s", 1),
+               Ccreate("DP", 4, "t", 1), Ccreate("DC", 4, "m", 3),
+               Csettopdef(1, 4), [op |-> "set_name", kind |-> "I", x |-> 1, val |-> "top"],
+               Cchild(1, "u", 2), Cchild(4, "u", 1), Cchild(4, "v", 2), Cchild(4, "w", 3) >>
+EdifOpts == [rename : BOOLEAN, case : {"same", "upper"}, bitorder : {"asc", "desc", "mixed"},
+             comments : BOOLEAN, skip_empty : BOOLEAN]
+FmtCands(s, which) ==
+    (IF "edif_read" \in which THEN {[op |-> "edif_read", n |-> 1, opts |-> o] : o \in EdifOpts} ELSE {})
+    \cup (IF "edif_rt" \in which THEN {[op |-> "edif_rt", n |-> 1]} ELSE {})
+FmtScope(q) ==
+      [init |-> FmtInit, ops |-> {"b:child", "b:connect", "reorder:NL", "reorder:LD", "set_attr:C", "props:I"},
+       max |-> [N |-> 1, L |-> 3, D |-> 4, P |-> 6, C |-> 3, I |-> 5, Q |-> 7, W |-> 6],
+       names |-> {"u", "v"}, vals |-> {}, pos |-> {NoPos, 0}, createN |-> {0},
+       parents |-> {3, 4}, maxKids |-> 2, queries |-> q, walk |-> FALSE]
+
 (* the compare scope: one named design built twice (netlist 1 and netlist 2 are faithful copies of each   *)
 (* other by construction), then every single structural mutation of one of them                          *)
 Csetdir(x, v) == [op |-> "set_dir", x |-> x, ival |-> v]
@@ -183,7 +220,14 @@ QScope == [init |-> QInit, ops |-> {}, max |-> MaxAll(0), names |-> {}, vals |->
            createN |-> {0}, queries |-> {"C13"}, walk |-> FALSE, sample |-> 3000]
 
 ScopeTable ==
-  [ compare |-> [init |-> CmpInit, ops |-> {}, max |-> MaxAll(0), names |-> {}, vals |-> {}, pos |-> {NoPos},
+  [ edif_read |-> FmtScope({"edif_read"}),
+    edif_rt |-> FmtScope({"edif_rt"}),
+    edif_read1 |-> [FmtScope({"edif_read"}) EXCEPT !.init = FmtInit1],
+    edif_rt1 |-> [FmtScope({"edif_rt"}) EXCEPT !.init = FmtInit1],
+    edif_rt2 |-> [FmtScope({"edif_rt"}) EXCEPT !.init = FmtInit1 \o << Cchild(3, "u", 1), Cchild(4, "u", 3), Cchild(4, "v", 1) >>],
+    edif_rt3 |-> [FmtScope({"edif_rt"}) EXCEPT !.init = FmtInit3, !.parents = {1, 4}],
+    edif_read2 |-> [FmtScope({"edif_read"}) EXCEPT !.init = FmtInit1 \o << Cchild(3, "u", 1), Cchild(4, "u", 3), Cchild(4, "v", 1) >>],
+    compare |-> [init |-> CmpInit, ops |-> {}, max |-> MaxAll(0), names |-> {}, vals |-> {}, pos |-> {NoPos},
                  createN |-> {0}, queries |-> {"C20"}, walk |-> FALSE],
     query |-> QScope,
     clone_edit |-> CloneEditScope,
@@ -264,6 +308,7 @@ QCands(s) ==
     \cup (IF "xf" \in Queries THEN XfCands(s) ELSE {})
     \cup (IF "clone" \in Queries THEN CloneCands(s) ELSE {})
     \cup (IF "C20" \in Queries THEN CompareCands(s) ELSE {})
+    \cup FmtCands(s, Queries)
     \cup (IF "C13" \in Queries THEN RandomSubset(Scope.sample * (MaxDepth + 1), QueryProduct(s)) \cup DirectProduct(s) ELSE {})
     \cup (IF "xf2" \in Queries
           THEN StepCands(s) \cup {[op |-> "uniquify", n |-> n] : n \in IdsN(s)}
